@@ -31,6 +31,11 @@ CHECKS = {
             'for every pair of compatible operands incl. order 1 and 2, with a random or user-supplied initial guess"; the accuracy clause (convergence of a randomised floating-point sweep) is not encodable and not claimed. '
             'The real DMRG/AMEn source is executed with every floating value abstracted to HAVOC (any value; each comparison an independent nondeterministic choice), so every outcome of the factorizations, rank truncations, '
             'residual and convergence tests is a path; shapes, ranks and loop structure stay exact.', '4 C11'),
+    'C12': ('model_checking', 'PARTIAL: decides only the structural clause "amen_solve(A, b, ...) returns x of the right shape (a well-formed TT tensor) and raises nothing, with every preconditioner option, the direct and both '
+            'iterative local solvers, with or without an initial guess"; the residual bound (convergence of an iterative floating-point solver) is not encodable and not claimed. The real AMEn source runs on HAVOC data '
+            '(any value, nondeterministic comparisons); the Krylov loops are replaced by a contract that applies the local operator once.', '4 C12'),
+    'C13': ('model_checking', 'PARTIAL: decides only the structural clause "x / y, scalar / y and elementwise_divide return a TT tensor of the same shape and raise nothing" on HAVOC data (the exact clause "dividing by a scalar" is decided '
+            'under C03); the accuracy of the AMEn division is not encodable and not claimed.', '4 C13'),
     'C14': ('model_checking', 'PARTIAL: decides only the clause "dmrg_cross calls the user function with an M x d int64 index matrix whose column k lies in [0, N[k])" and the absence of shape/index errors, '
             'not the accuracy clause (convergence of a randomised floating-point iteration is not encodable) and not function_interpolate. The real dmrg_cross / _maxvol source is executed with every floating value '
             'abstracted to HAVOC (any value; each comparison an independent nondeterministic choice), so every outcome of pivoting, rank truncation and the convergence test is a path; the integer side '
